@@ -66,7 +66,7 @@ func (C15) Runs(tier string) int {
 func (C15) Meta() core.Meta {
 	return core.Meta{
 		Level: "fault_enumeration",
-		Rule: "a case = one process run of the real binary: operation (encrypt with -r/-R/-e -i, decrypt with -i incl. several identity files, keygen, keygen -y), key types (X25519, ssh-ed25519, ssh-rsa), armor, input size 0..3 chunks from file or pre-filled pipe, output to -o file / pipe / redirected file, damaged input (header flip, payload flip, truncation), pre-existing output, -o naming the input / an identity file / a recipients file under ./x, d/../x and absolute spellings, and one output fault: RLIMIT_FSIZE=n (sweep runs: every n in 0..len(output)), missing parent directory, target is a directory, /dev/full, stdout pipe closed before start. Oracle: exit 0 => destination holds the complete result (decrypt: == P; encrypt: reference model decrypts it to the input; keygen: parseable key file, mode 0600; keygen -y: all recipient lines); no fault and valid input => exit 0; header-level refusal => -o neither created nor modified; payload failure => output is a prefix of P; same-file => refused, files intact; keygen -o existing => refused, intact. Non-trivial = a fault, damage, pre-existing or same-file condition is present; distinct = distinct plans.",
+		Rule: "a case = one process run of the real binary: operation (encrypt with -r/-R/-e -i, decrypt with -i incl. several identity files, keygen, keygen -y), key types (X25519, ssh-ed25519, ssh-rsa), armor, input size 0..3 chunks from file or pre-filled pipe, output to -o file / pipe / redirected file, damaged input (header flip, payload flip, truncation), pre-existing output, -o naming the input / an identity file / a recipients file under ./x, d/../x, absolute, and non-canonical absolute (/./, /d/../, //) spellings, and one output fault: RLIMIT_FSIZE=n (sweep runs: every n in 0..len(output)), missing parent directory, target is a directory, /dev/full, stdout pipe closed before start. Oracle: exit 0 => destination holds the complete result (decrypt: == P; encrypt: reference model decrypts it to the input; keygen: parseable key file, mode 0600; keygen -y: all recipient lines); no fault and valid input => exit 0; header-level refusal => -o neither created nor modified; payload failure => output is a prefix of P; same-file => refused, files intact; keygen -o existing => refused, intact. Non-trivial = a fault, damage, pre-existing or same-file condition is present; distinct = distinct plans.",
 		Assumptions: []string{"kernel, file system and process scheduling are real and not controlled; nothing in the oracle depends on timing (pipes are pre-filled or closed before start)", "passphrase (-p / scrypt) flows need a terminal and are not exercised here", "runs as root: permission-denied destinations are not generated", "a death by signal (SIGXFSZ, SIGPIPE) counts as a non-zero status"},
 		Real:        []string{"cmd/age and cmd/age-keygen binaries built from the working tree", "Linux kernel: files, pipes, RLIMIT_FSIZE, /dev/full"},
 		Stub:        []string{"argv, environment, input files, identity/recipient files, file descriptors and limits (the plan)"},
@@ -147,7 +147,7 @@ func (C15) Generate(r *core.RNG, tier string, idx uint64) interface{} {
 	case 6:
 		if p.Op == "encrypt" || p.Op == "decrypt" {
 			p.SameAs = []string{"input", "identity", "recipients"}[r.Intn(3)]
-			p.Spelling = []string{"dot", "dotdot", "abs", "plain"}[r.Intn(4)]
+			p.Spelling = []string{"dot", "dotdot", "abs", "plain", "abs-dot", "abs-dotdot", "abs-slashes"}[r.Intn(7)]
 			p.OutVia = "file"
 			p.InVia = "file"
 		}
@@ -571,6 +571,12 @@ func (e C15) one(p *C15Plan, fault OutFault, c *core.Ctx, ageBin, kgBin string, 
 			outPath = "d/../" + base
 		case "abs":
 			outPath = target
+		case "abs-dot":
+			outPath = filepath.Dir(target) + "/./" + base
+		case "abs-dotdot":
+			outPath = filepath.Dir(target) + "/d/../" + base
+		case "abs-slashes":
+			outPath = filepath.Dir(target) + "//" + base
 		default:
 			outPath = base
 		}
